@@ -1,6 +1,8 @@
 //! unit: u15b
 //! properties: C15
 //! note: read-buffer framing of PeerManager::do_read_event after the handshake: the buffer is sized for the announced body plus its 16-byte tag for every u16 length, and reset to the 18-byte header afterwards
+//! trusted: R15 (deep slice): process_events, UpdateHTLCs arm: the statement that announces a batch of commitment_signed messages, verbatim (the enqueue macro call is dropped; the function returns the StartBatch it would enqueue); CommitmentSigned::TYPE is the BOLT 2 message type 132
+//! assume: at most 65535 commitment_signed messages per update (one per funding scope; `len() as u16`)
 //! trusted: R15 (deep slice): do_attempt_write_data: the statement that advances the gossip-backfill cursor past the channel just sent, verbatim as a function of the announcement (InitSyncTracker skeleton); the short_channel_id is NOT bounded by a precondition: a graph without chain access accepts any id a peer announces (finding F5)
 //! trusted: R15 (deep slices): do_handle_message_holding_peer_lock: the test that refuses a non-Init message while no Init has been accepted and the test that refuses a second Init, verbatim as functions of the peer (skeleton {their_features}); the feature / chain compatibility tests and the handlers' peer_connected notifications are not sliced (handlers are reached through shared references to objects with interior state)
 //! trusted: R15 (statement slicing, deep form): do_read_event is ~600 lines under three locks with function-local macros; the unit extracts, on every run, (a) the statements between `let msg_len = ..decrypt_length_header..` and `peer.pending_read_is_header = false;` and (b) the "Reset read buffer" statements of the body branch, verbatim, as two functions of the two Peer fields they touch; everything else of do_read_event is dropped and not claimed
@@ -190,6 +192,28 @@ pub struct SyncPeer { pub sync_status: InitSyncTracker }
     announce.contents.short_channel_id.saturating_add(1),
 //@with
     announce.contents.short_channel_id + 1,
+//@end
+// ---- process_events: several commitment_signed for one channel (splice pending) are announced as a batch of exactly that size ----
+pub struct CommitmentSigned { pub id: u64 }
+impl CommitmentSigned { pub const TYPE: u16 = 132; }
+#[derive(Clone, Copy)] pub struct BatchChannelId { pub id: u64 }
+pub struct StartBatch { pub channel_id: BatchChannelId, pub batch_size: u16, pub message_type: Option<u16> }
+//@extract lightning/src/ln/peer_handler.rs :: impl PeerManager :: fn process_events
+//@strip msgs
+//@slice R15
+    if $c:cond { let msg = StartBatch { $fields:any }; let msg = Message::StartBatch(msg); enqueue_message_to_peer!(&mut *peer, node_id, msg)?; }
+//@with
+    fn batch_announcement(commitment_signed: &Vec<CommitmentSigned>, channel_id: &BatchChannelId) -> Option<StartBatch> { if $c { let msg = StartBatch { $fields }; Some(msg) } else { None } }
+//@ret r
+//@requires
+    commitment_signed@.len() <= 65535,
+//@ensures P C15 more-than-one-commitment-signed-for-a-channel-is-preceded-by-a-start-batch-announcing-exactly-their-number-and-type-and-a-single-one-is-not
+    commitment_signed@.len() > 1 ==> r == Some(StartBatch { channel_id: *channel_id, batch_size: commitment_signed@.len() as u16, message_type: Some(132u16) }),
+    commitment_signed@.len() <= 1 ==> r is None,
+//@mutant two_commitment_signed_sent_without_a_batch
+    if commitment_signed.len() > 1 {
+//@with
+    if commitment_signed.len() > 2 {
 //@end
 // ---- Init before anything else, and only once (do_handle_message_holding_peer_lock) -------------------------------------------
 pub struct InitFeatures {}
